@@ -47,3 +47,100 @@ macro_rules! impl_backend {
 }
 impl_backend!(VB, VringMutex<GM<()>>, vr::ring_id_mutex);
 impl_backend!(VBR, VringRwLock<GM<()>>, vr::ring_id_rwlock);
+
+// ---------------------------------------------------------------- adapters (C14): Mutex<T>, RwLock<T>, Arc<T>
+// A recording VhostUserBackendMut; every call through an adapter must reach it with equal arguments and the
+// adapter must return what it returned.
+pub(crate) struct AdRec {
+    pub calls: u32,
+    pub last: u32,
+    pub a: [u64; 4],
+    pub marker: u64,
+}
+pub(crate) static mut AD: AdRec = AdRec { calls: 0, last: 0, a: [0; 4], marker: 0x6164_6170_7465_7201 };
+#[allow(static_mut_refs)]
+fn ad() -> &'static mut AdRec {
+    // SAFETY: single-threaded harness
+    unsafe { &mut AD }
+}
+fn note(id: u32, a: [u64; 4]) {
+    ad().calls += 1;
+    ad().last = id;
+    ad().a = a;
+}
+pub(crate) struct VBM;
+impl VhostUserBackendMut for VBM {
+    type Bitmap = ();
+    type Vring = VringMutex<GM<()>>;
+    fn num_queues(&self) -> usize { note(1, [0; 4]); 0x1234 }
+    fn max_queue_size(&self) -> usize { note(2, [0; 4]); 0x4321 }
+    fn features(&self) -> u64 { note(3, [0; 4]); 0xfeed_f00d_dead_beef }
+    fn acked_features(&mut self, features: u64) { note(4, [features, 0, 0, 0]); }
+    fn protocol_features(&self) -> VhostUserProtocolFeatures { note(5, [0; 4]); VhostUserProtocolFeatures::from_bits_retain(0x0123_4567_89ab_cdef) }
+    fn reset_device(&mut self) { note(6, [0; 4]); }
+    fn set_event_idx(&mut self, enabled: bool) { note(7, [enabled as u64, 0, 0, 0]); }
+    fn get_config(&self, offset: u32, size: u32) -> Vec<u8> { note(8, [offset as u64, size as u64, 0, 0]); vec![0xa5, 0x5a] }
+    fn set_config(&mut self, offset: u32, buf: &[u8]) -> Result<()> {
+        note(9, [offset as u64, buf.len() as u64, if buf.len() > 0 { buf[0] as u64 } else { 0 }, if buf.len() > 1 { buf[buf.len() - 1] as u64 } else { 0 }]);
+        Ok(())
+    }
+    fn update_memory(&mut self, mem: GM<()>) -> Result<()> { note(10, [0; 4]); std::mem::forget(mem); Ok(()) }
+    fn queues_per_thread(&self) -> Vec<u64> { note(11, [0; 4]); vec![0b0101, 0b1010] }
+    fn handle_event(&mut self, device_event: u16, evset: EventSet, vrings: &[Self::Vring], thread_id: usize) -> Result<()> {
+        note(12, [device_event as u64, evset.bits() as u64, vrings.len() as u64, thread_id as u64]);
+        Ok(())
+    }
+}
+
+macro_rules! adapter_harness {
+    ($name:ident, $wrap:expr) => {
+        #[kani::proof]
+        #[kani::unwind(4)]
+        #[kani::stub(std::alloc::handle_alloc_error, vgm::ghost_alloc_error)]
+        fn $name() {
+            let b = std::mem::ManuallyDrop::new($wrap);
+            let which: u8 = kani::any();
+            kani::assume(which >= 1 && which <= 12 && which != 10);
+            let (x, y): (u64, u64) = (kani::any(), kani::any());
+            let data: [u8; 3] = kani::any();
+            match which {
+                1 => assert!(b.num_queues() == 0x1234 && ad().last == 1),
+                2 => assert!(b.max_queue_size() == 0x4321 && ad().last == 2),
+                3 => assert!(b.features() == 0xfeed_f00d_dead_beef && ad().last == 3),
+                4 => { b.acked_features(x); assert!(ad().last == 4 && ad().a[0] == x, "C14: acknowledged features reach the backend unchanged"); }
+                5 => assert!(b.protocol_features().bits() == 0x0123_4567_89ab_cdef && ad().last == 5),
+                6 => { b.reset_device(); assert!(ad().last == 6); }
+                7 => { b.set_event_idx(x & 1 == 1); assert!(ad().last == 7 && ad().a[0] == (x & 1), "C14: EVENT_IDX setting reaches the backend"); }
+                8 => {
+                    let v = b.get_config(x as u32, y as u32);
+                    assert!(ad().last == 8 && ad().a[0] == (x as u32) as u64 && ad().a[1] == (y as u32) as u64);
+                    assert!(v.len() == 2 && v[0] == 0xa5 && v[1] == 0x5a, "C14: config bytes returned unchanged");
+                    std::mem::forget(v);
+                }
+                9 => {
+                    let r = b.set_config(x as u32, &data[..]);
+                    assert!(r.is_ok() && ad().last == 9 && ad().a[0] == (x as u32) as u64 && ad().a[1] == 3 && ad().a[2] == data[0] as u64 && ad().a[3] == data[2] as u64);
+                    std::mem::forget(r);
+                }
+                11 => {
+                    let v = b.queues_per_thread();
+                    assert!(ad().last == 11 && v.len() == 2 && v[0] == 0b0101 && v[1] == 0b1010, "C17: queues-per-thread masks pass through the adapter");
+                    std::mem::forget(v);
+                }
+                _ => {
+                    let r = b.handle_event(x as u16, EventSet::IN, &[], y as usize);
+                    assert!(r.is_ok() && ad().last == 12 && ad().a[0] == (x as u16) as u64 && ad().a[1] == EventSet::IN.bits() as u64 && ad().a[2] == 0 && ad().a[3] == (y as usize) as u64, "C17/C14: event id, event set and thread id reach the backend unchanged");
+                    std::mem::forget(r);
+                }
+            }
+            kani::cover!(which == 12);
+            assert!(ad().calls == 1, "C14: exactly one backend call per adapter call");
+        }
+    };
+}
+// @harness props=C14,C17 tier=quick reach=off bound="Mutex<T> backend adapter: one symbolic method of {num_queues, max_queue_size, features, acked_features, protocol_features, reset_device, set_event_idx, get_config, set_config, queues_per_thread, handle_event} with symbolic arguments" stubs="handle_alloc_error"
+adapter_harness!(c14_u_adapter_mutex, Mutex::new(VBM));
+// @harness props=C14,C17 tier=quick reach=off bound="RwLock<T> backend adapter: as c14_u_adapter_mutex" stubs="handle_alloc_error"
+adapter_harness!(c14_u_adapter_rwlock, RwLock::new(VBM));
+// @harness props=C14,C17 tier=quick reach=off bound="Arc<Mutex<T>> backend adapter (Arc<T> over Mutex<T>): as c14_u_adapter_mutex" stubs="handle_alloc_error"
+adapter_harness!(c14_u_adapter_arc_mutex, Arc::new(Mutex::new(VBM)));
